@@ -180,7 +180,9 @@ fn c02_arrayvec_drop_concrete() {
     let mut d = Decoder::new(&buf[.. len]);
     let r: Result<[Dc; 2], _> = Decode::decode(&mut d, &mut ());
     match r {
-        Ok(arr) => { assert!(which == 0 || which >= 4); unsafe { assert!(MADE == 2 && DROPPED == 0) } drop(arr); unsafe { assert!(DROPPED == 2) } }
+        Ok(arr) => { assert!(which == 0 || which >= 4, "an array with too many / too few / ill-typed elements was accepted");
+                     assert!(d.position() == len, "the whole array item (incl. the break of the indefinite form) must be consumed");
+                     unsafe { assert!(MADE == 2 && DROPPED == 0) } drop(arr); unsafe { assert!(DROPPED == 2) } }
         Err(_) => { assert!(which >= 1 && which <= 3); unsafe { assert!(DROPPED == MADE) } }
     }
     kani::cover!(which == 1);
